@@ -32,6 +32,8 @@ COMPONENTS = {"real": ["litex.soc.interconnect.csr.CSR/CSRStatus/CSRStorage/CSRF
 CHUNK = 4
 
 
+SEEDED_SCALE = {"quick": 8, "thorough": 8}      # multiplies the run counts of the sampled families in plan()
+
 def plan(tier):
     return [("bank", 200 if tier == "quick" else 12000)]
 
